@@ -138,12 +138,12 @@ class NoiseDevice:
         self.client_frames.extend(out)
         return out
 
-    def handshake_reply(self, client_handshake_body: bytes) -> bytes:
+    def handshake_reply(self, client_handshake_body: bytes, payload: bytes = b"") -> bytes:
         """Process the client's handshake frame body, return our handshake frame."""
         if client_handshake_body[:1] != b"\x00":
             raise ValueError("client handshake frame does not start with 0x00")
         self.proto.read_message(client_handshake_body[1:])
-        msg = self.proto.write_message()
+        msg = self.proto.write_message(payload)  # a conformant responder may attach a payload to "<- e, ee"
         assert self.proto.handshake_finished
         np = self.proto.noise_protocol
         self.send_key = np.cipher_state_encrypt.k
